@@ -234,3 +234,12 @@ mod tests {
         assert_eq!(buf.parsed_as_slice(), [0x01, 65, 0, 0xbe, 0xba, 0xfe, 0xca]);
     }
 }
+
+// Verification hook. Inert unless built by the Kani compiler (`cargo kani`, `cargo kani playback`):
+// the harness text lives outside this repository, in `$RS_MATTER_VERIF_DIR`.
+#[cfg(kani)]
+mod verif_kani {
+    #[allow(unused_imports)]
+    use super::*;
+    include!(concat!(env!("RS_MATTER_VERIF_DIR"), "/utils__storage__parsebuf.rs"));
+}
